@@ -209,4 +209,17 @@ Definition concat_stream (vs : list cval) : res cval :=
   | _ => concat_items vs
   end.
 
+(* ConcatItems[T] for an interface type T (a stream of [any]; /repo commit c44e450): the
+   chunks are concatenated by their common dynamic type exactly as the values under one key
+   of a map chunk are: nil chunks are skipped (all nil: nil), differing dynamic types are an
+   error, maps go to concatMaps, everything else to concatSliceValue. *)
+Definition concat_items_any (vs : list cval) : res cval := concat_key concat_maps_top vs.
+
+Definition concat_stream_any (vs : list cval) : res cval :=
+  match vs with
+  | [] => Err E_EMPTY
+  | [v] => Ok v
+  | _ => concat_items_any vs
+  end.
+
 End User.
